@@ -274,7 +274,7 @@ func (w *w1) writeContract(v ssa.Value) (bool, int) {
 
 func ruleW1(c *Ctx, id string) {
 	V, P, R := c.V, c.P, c.R
-	R.Rule(id, "write-through of cached inode fields: every store to a persistent Inode field is followed by WriteInode of the same inode on every non-failing path, within the function or (by summary) in every caller up to the handler", 15)
+	R.Rule(id, "write-through of cached inode fields: every store to a persistent Inode field is followed by WriteInode of the same inode on every non-failing path, within the function or (by summary) in every caller up to the handler", 28)
 	w := &w1{c: c, dirtyRet: map[string]bool{}, cleanAll: map[string]int{}, dirtyMemo: map[string]int{}}
 	fresh := map[*ssa.Function]bool{V.Decode: true}
 	if f := P.Func("inode.MkRootInode"); f != nil {
